@@ -101,3 +101,14 @@ def under_guard(ev: Event, pred) -> bool | None:
 
 def enclosing_loops(ev: Event) -> list[tuple]:
     return [f for f in ev.ctx if f[0] in ("for", "comp")]
+
+
+def bound_args(prog: Program, ev) -> dict:
+    """Arguments of a call event by parameter name (positional ones named through the callee's signature when it is certain)."""
+    out = dict(ev.kwargs)
+    sig = prog.call_signature(ev.func)
+    if sig is not None:
+        for i, a in enumerate(ev.args):
+            if i < len(sig):
+                out.setdefault(sig[i], a)
+    return out
